@@ -1246,8 +1246,21 @@ def _src_root():
 class _Shape(ast.NodeVisitor):
     """Prints a method body as a sequence of tokens."""
 
-    def __init__(self):
+    def __init__(self, local_names=()):
         self.out = []
+        # names bound inside the function (parameters, assignment / for / with-as / except-as targets):
+        # an audited attribute reached through one of them (`for channel in ...: channel.requests`) counts
+        # like one reached through self; the NAME never enters a token, so renaming a local is invisible
+        self.bases = {"self"} | set(local_names)
+        self.order = {}
+
+    def norm_value(self, node):
+        """text of an assigned value with function-local names replaced by v1, v2, ... (first use)"""
+        node = ast.parse(ast.unparse(node), mode="eval").body
+        for n in ast.walk(node):
+            if isinstance(n, ast.Name) and n.id in self.bases and n.id != "self":
+                n.id = self.order.setdefault(n.id, "v%d" % (len(self.order) + 1))
+        return ast.unparse(node)
 
     def accesses(self, node):
         """attribute reads of audited attrs and audited calls inside an expression, in source order"""
@@ -1256,7 +1269,7 @@ class _Shape(ast.NodeVisitor):
             if isinstance(n, ast.Attribute) and isinstance(n.ctx, ast.Load):
                 if n.attr in AUDITED_ATTRS or n.attr == "total_outbufs_len":
                     base = n.value
-                    if isinstance(base, ast.Name) and base.id in ("self", "channel"):
+                    if isinstance(base, ast.Name) and base.id in self.bases:
                         found.append((n.lineno, n.col_offset, "R:" + n.attr))
             if isinstance(n, ast.Call):
                 f = n.func
@@ -1338,9 +1351,9 @@ class _Shape(ast.NodeVisitor):
                     and val.attr in AUDITED_CALLS:
                 o.append("ref:" + val.attr)      # e.g. `flush = self._flush_some_if_lockable`
             for t in targets:
-                if isinstance(t, ast.Attribute) and isinstance(t.value, ast.Name) and t.value.id in ("self", "channel") \
+                if isinstance(t, ast.Attribute) and isinstance(t.value, ast.Name) and t.value.id in self.bases \
                         and t.attr in AUDITED_ATTRS:
-                    o.append("W:%s=%s" % (t.attr, ast.unparse(val)))
+                    o.append("W:%s=%s" % (t.attr, self.norm_value(val)))
         elif isinstance(s, (ast.Expr, ast.Return, ast.Raise)):
             v = getattr(s, "value", None) or getattr(s, "exc", None)
             if v is not None:
@@ -1349,6 +1362,21 @@ class _Shape(ast.NodeVisitor):
             pass
         else:
             o.append("?" + type(s).__name__)
+
+
+def _local_names(fn):
+    """names bound inside a function: parameters and every Store of a plain name"""
+    names = set(a.arg for a in fn.args.args + fn.args.kwonlyargs + fn.args.posonlyargs)
+    if fn.args.vararg:
+        names.add(fn.args.vararg.arg)
+    if fn.args.kwarg:
+        names.add(fn.args.kwarg.arg)
+    for n in ast.walk(fn):
+        if isinstance(n, ast.Name) and isinstance(n.ctx, ast.Store):
+            names.add(n.id)
+        elif isinstance(n, ast.ExceptHandler) and n.name:
+            names.add(n.name)
+    return names
 
 
 def _clean(toks):
@@ -1364,7 +1392,7 @@ def shape_of(qual):
         if isinstance(n, ast.ClassDef) and n.name == cls:
             for m in n.body:
                 if isinstance(m, ast.FunctionDef) and m.name == meth:
-                    sh = _Shape()
+                    sh = _Shape(_local_names(m))
                     body = m.body
                     if body and isinstance(body[0], ast.Expr) and isinstance(body[0].value, ast.Constant) \
                             and isinstance(body[0].value.value, str):
